@@ -24,7 +24,7 @@ RULE = ("tables of 0-60 rows x 1-6 columns (and of 8 192 - 70 000 rows x 1-3 col
         "value) and int64; missing value in {absent, 0, -9999, only in other columns, everywhere}; Float / Integer / default type; blank "
         "lines; LF / CRLF; write cases with 1-4 results in any type order; distinct by (case kind, dtype request, missing class, ncols, "
         "has-blank-lines, eol, header class)")
-REQUIRED_COUNTERS = ["columns_read_and_compared", "mask_checks", "other_column_independence_checks", "error_line_checks", "files_written_and_parsed", "read_after_write_checks", "same_path_rereads", "ragged_other_column_checks", "large_files_read"]
+REQUIRED_COUNTERS = ["columns_read_and_compared", "mask_checks", "other_column_independence_checks", "error_line_checks", "files_written_and_parsed", "read_after_write_checks", "same_path_rereads", "ragged_other_column_checks", "large_files_read", "reruns_after_the_file_was_repaired"]
 ASSUMPTIONS = ["don't-care: textual form of missing cells in written files, fractional cells read as Integer, NaN/inf, rows too short to hold the requested column, rank != 1 on write",
                "integers are generated within +-2^53 (cells are parsed through float())"]
 
@@ -32,7 +32,7 @@ DOUBLES = [0.0, -0.0, 1.0, -1.0, 0.1, 1 / 3.0, 5e-324, -5e-324, 2.22507385850720
            0.30000000000000004, 1e22, 1e-7, 9007199254740992.0, 9007199254740993.0, 3.141592653589793, 2.5, -9998.999999999998, -9999.000000000002, -9999.05,
            -9999.0000001, 1e-300, 3e-9, -3e-9, 1e-12, 99.00000000000001, 98.99999999999999]
 HEADERS = ["A", "B", "Elev", "my col", "a,b", 'say "hi"', "é_ü", " lead", "x:y", "#c", "日本", "Value (m)", "a;b", "'q'", "two\nlines", "twolines", "ff\x0cx", "ffx",
-           "ls\u2028sep", "nel\x85x"]
+           "ls\u2028sep", "nel\x85x", "soil{0}", "{id}", "a}b", "{{x}}", "100%", "%s", "$col", "a{b"]
 
 
 def bits(x):
@@ -303,6 +303,15 @@ def run_read(ctx, case):
         ctx.sample({"header": col["name"], "dtype": dtype, "missing": missing, "cells": [repr(v) for v in col["data"][:5]], "result": arr.describe(res, 5), "blank_lines": sorted(blanks or [])})
 
 
+def _msg(ctx, out, what):
+    """The text of the error (what the tool prints); rendering it must work whatever the header is called."""
+    try:
+        return str(out.exc)
+    except Exception as e:
+        ctx.fail("error:%s:rendering-the-message-raises-%s" % (what, type(e).__name__), {"error_class": out.err, "raised": repr(e)[:200]})
+        return None
+
+
 def run_error(ctx, case):
     t = case["table"]
     rng = random.Random(case["rseed"])
@@ -329,8 +338,10 @@ def run_error(ctx, case):
         out = _read(prog, path, "R", want, None, None)
         if out.ok or out.err != "InvalidDataFile":
             ctx.fail("error:missing-header:%s:%s" % (vclass, "accepted" if out.ok else out.inner() or out.err), {"requested": want, "headers": have, "error": repr(out.exc)[:200]})
-        elif want.strip() not in str(out.exc):
-            ctx.fail("error:missing-header:message-does-not-name-header", {"message": str(out.exc)[:300]})
+        else:
+            msg = _msg(ctx, out, "missing-header")
+            if msg is not None and want.strip() not in msg:
+                ctx.fail("error:missing-header:message-does-not-name-header", {"message": msg[:300]})
         return
     bad_row = rng.randrange(t["nrows"])
     row_line = write_csv(t, path, blanks)
@@ -351,7 +362,10 @@ def run_error(ctx, case):
         if out.ok or out.err != "InvalidDataFile":
             ctx.fail("error:row-of-empty-cells:%s" % ("accepted" if out.ok else out.inner() or out.err), {"line": repr(lines[ln - 1]), "rows_read": getattr(out.value, "shape", None) if out.ok else None})
             return
-        m = re.search(r"line (\d+)", str(out.exc))
+        msg = _msg(ctx, out, "row-of-empty-cells")
+        if msg is None:
+            return
+        m = re.search(r"line (\d+)", msg)
         if not m or int(m.group(1)) != ln:
             ctx.fail("error:row-of-empty-cells:wrong-file-line", {"reported": m and int(m.group(1)), "actual_file_line": ln})
         return
@@ -363,7 +377,21 @@ def run_error(ctx, case):
     if out.ok or out.err != "InvalidDataFile":
         ctx.fail("error:non-numeric:%s" % ("accepted" if out.ok else out.inner() or out.err), {"error": repr(out.exc)[:200], "cell": cells[target]})
         return
-    msg = str(out.exc)
+    msg = _msg(ctx, out, "non-numeric")
+    if msg is None:
+        return
+    # the data file is repaired and the *same* program is run again: it now reads the column
+    if case["rseed"] % 2 == 0 and not blanks:
+        ctx.count("reruns_after_the_file_was_repaired")
+        write_csv(t, path, blanks)
+        try:
+            again = prog.commands["R"].result
+            if not isinstance(again, numpy.ndarray) or again.shape != (t["nrows"],):
+                ctx.fail("error:non-numeric:rerun-after-repair-returns-something-else", {"got": repr(again)[:100]})
+                return
+        except Exception as e:
+            ctx.fail("error:non-numeric:rerun-after-repair-raises-%s" % type(e).__name__, {"error": str(e)[:200]})
+            return
     m = re.search(r"line (\d+)", msg)
     if not m:
         ctx.fail("error:non-numeric:message-without-line", {"message": msg[:300]})
